@@ -95,7 +95,7 @@ func main() {
 //
 //	(random SEED N) | (delay1) | (delay2 MAXPAIRS SEED) | (choices a b c ...)
 func exploreCase(id *sx.Node, s *session, st *sx.Node) *sx.Node {
-	trials, stuck, double := 0, 0, 0
+	trials, stuck, double, wrong := 0, 0, 0, 0
 	var first *sx.Node
 	maxSteps := 0
 	note := func(o *sx.Node, steps int) {
@@ -118,6 +118,10 @@ func exploreCase(id *sx.Node, s *session, st *sx.Node) *sx.Node {
 			double++
 			bad = true
 		}
+		if len(o.List) > 6 && o.List[6].Head() == "wrong" && o.List[6].List[1].Atom == "1" {
+			wrong++
+			bad = true
+		}
 		if bad && first == nil {
 			first = o
 		}
@@ -126,7 +130,7 @@ func exploreCase(id *sx.Node, s *session, st *sx.Node) *sx.Node {
 	case "random":
 		seed := uint64(st.List[1].Int())
 		n := int(st.List[2].Int())
-		for i := 0; i < n && stuck+double < 2; i++ {
+		for i := 0; i < n && stuck+double+wrong < 2; i++ {
 			o, k := exploreOnce(s, strategy{kind: "random", rng: &Rng{s: seed*1000003 + uint64(i)}})
 			note(o, k)
 		}
@@ -143,7 +147,7 @@ func exploreCase(id *sx.Node, s *session, st *sx.Node) *sx.Node {
 	case "delay1", "delay2":
 		o, n := exploreOnce(s, strategy{kind: "delay", delays: map[int]bool{}})
 		note(o, n)
-		for i := 0; i < n+2 && stuck+double < 2; i++ {
+		for i := 0; i < n+2 && stuck+double+wrong < 2; i++ {
 			o, k := exploreOnce(s, strategy{kind: "delay", delays: map[int]bool{i: true}})
 			note(o, k)
 		}
@@ -152,7 +156,7 @@ func exploreCase(id *sx.Node, s *session, st *sx.Node) *sx.Node {
 			rng := &Rng{s: uint64(st.List[2].Int())}
 			total := (n + 2) * (n + 1) / 2
 			for i := 0; i < n+2; i++ {
-				for j := i + 1; j < n+2 && stuck+double < 2; j++ {
+				for j := i + 1; j < n+2 && stuck+double+wrong < 2; j++ {
 					if total > maxPairs && rng.Intn(total) >= maxPairs {
 						continue
 					}
@@ -163,7 +167,7 @@ func exploreCase(id *sx.Node, s *session, st *sx.Node) *sx.Node {
 		}
 	}
 	res := sx.L(sx.A("xsum"), id, sx.L(sx.A("trials"), sx.I(int64(trials))), sx.L(sx.A("stuck"), sx.I(int64(stuck))),
-		sx.L(sx.A("double"), sx.I(int64(double))), sx.L(sx.A("maxsteps"), sx.I(int64(maxSteps))))
+		sx.L(sx.A("double"), sx.I(int64(double))), sx.L(sx.A("maxsteps"), sx.I(int64(maxSteps))), sx.L(sx.A("wrong"), sx.I(int64(wrong))))
 	if first != nil {
 		res.Append(sx.L(sx.A("first"), first))
 	}
